@@ -8,6 +8,20 @@ package trie
 //@   pure
 //@   trusted
 
+// C12: the bit-string key of a prefix. IPv4 prefixes are IPv4-mapped (96 extra bits); character k of
+// the key is bit k (most significant first) of the 16-byte address; the key has exactly nbits characters.
 //@ func Prefix2bin128
 //@   pure
-//@   trusted
+//@   let nb() = prefix.Bits() + (prefix.Addr().Is4() ? 96 : 0)
+//@   let bitAt(k int) = (prefix.Addr().As16()[k/8] >> (7 - k%8)) & 1
+//@   requires 0 <= prefix.Bits() && prefix.Bits() <= 128 && (prefix.Addr().Is4() ==> prefix.Bits() <= 32)
+//@   ensures len(bin128) == nb()
+//@   ensures forall k int {bin128[k]} :: 0 <= k && k < nb() ==> bin128[k] == 48 + bitAt(k)
+//@   loop 1
+//@     invariant 0 <= $iter && $iter <= 15 && n == nb() - 8 * $iter && n > 0
+//@     invariant len(buf.$content) == 8 * $iter
+//@     invariant forall k int {buf.$content[k]} :: 0 <= k && k < 8 * $iter ==> buf.$content[k] == 48 + bitAt(k)
+//@   loop 2
+//@     invariant 0 <= $iter && $iter <= 15 && -1 <= j && j <= 7 && n == nb() - 8 * $iter - (7 - j) && n > 0
+//@     invariant len(buf.$content) == 8 * $iter + (7 - j)
+//@     invariant forall k int {buf.$content[k]} :: 0 <= k && k < 8 * $iter + (7 - j) ==> buf.$content[k] == 48 + bitAt(k)
